@@ -40,3 +40,46 @@ def outcome(f, *a, **k):
 
 def okind(o):
     return "key" if o[0] == "ret" else o[1]
+
+
+# ------------------------------------------------------------------ sessions on the instrumented classes
+def orders():
+    G, E = loader.MODS["groups"], loader.MODS["ed25519_basic"]
+    return {"L": E.L, "q1024": G.I1024.q, "q2048": G.I2048.q, "q3072": G.I3072.q, "11": 11, "65537": 65537}
+
+
+def klass(name):
+    S = loader.MODS["spake2"]
+    return {"A": S.SPAKE2_A, "B": S.SPAKE2_B, "S": S.SPAKE2_Symmetric}[name]
+
+
+PEER = {"A": "B", "B": "A", "S": "S"}
+SIDE_BYTE = {"A": 0x41, "B": 0x42, "S": 0x53}
+
+
+def new_instance(cls, params, pw, idA, idB, ent):
+    K = klass(cls)
+    if cls == "S":
+        return K(pw, idSymmetric=idA, params=params, entropy_f=ent)
+    return K(pw, idA=idA, idB=idB, params=params, entropy_f=ent)
+
+
+def restore(cls, inst, params):
+    return klass(cls).from_serialized(inst.serialize(), params=params)
+
+
+def sym_inputs(lens, tag=""):
+    return (SymBytes.fresh(tag + "pw", lens[0]), SymBytes.fresh(tag + "idA", lens[1]), SymBytes.fresh(tag + "idB", lens[2]))
+
+
+def msg_log(inst):
+    """discrete log of the blinded element an instance sent (abstract group)"""
+    from .core import T
+    from .absgroup import norm
+    return norm(inst.xy_elem.log + inst.my_blinding().log * T(inst.pw_scalar))
+
+
+def abstract_params(q, tag="G", rejects_identity=False, **kw):
+    P = loader.MODS["params"]
+    g = AbsGroup(q, tag=tag, rejects_identity=rejects_identity)
+    return P._Params(g, **kw)
